@@ -236,13 +236,13 @@ template <unsigned short N, class E> void c_web(E& e) {
 #define C23_WEB(N) VSYM_CONTRACT("converter-web/" #N "D", (c_web<N##u>))
 C23_N(1) C23_WEB(1)
 C23_N(2) C23_WEB(2)
-#ifdef VERIF_EXPERIMENTAL  /* the 3D web (33 converters on a symbolic 3D deformation gradient) did not finish its VC generation in 50 minutes */
+#ifdef VERIF_EXPERIMENTAL  /* 3D, symbolic deformation gradient: the web did not finish its VC generation in 50 minutes, from-DS_DEGL not in 30 minutes */
 C23_WEB(3)
+VSYM_CONTRACT("from-DS_DEGL/3D", (c_spatial_operators<3u>))
 #endif
-#ifdef VERIF_THOROUGH
-C23_N(3)
-#else
 VSYM_CONTRACT("stress-measures/3D", (c_stress_measures<3u>))
 VSYM_CONTRACT("DS_DEGL<->DS_DC/3D", (c_material_operators<3u>))
+#ifdef VERIF_THOROUGH
+VSYM_CONTRACT("increment-operators/3D", (c_increment_operators<3u>))
 #endif
 int main(int argc, char** argv) { return vsym::driver_main(argc, argv); }
